@@ -496,6 +496,7 @@ func main() {
 	full := []PShape{{0, false}, {1, false}, {2, false}, {0, true}, {1, true}, {2, true}}
 	red4 := []PShape{{0, false}, {1, false}, {0, true}, {2, true}}
 	red3 := []PShape{{0, false}, {1, false}, {1, true}}
+	red2 := []PShape{{0, false}, {1, true}}
 	red5 := []PShape{{0, false}, {1, false}, {2, false}, {0, true}, {1, true}}
 	names := []string{"A", "B"}
 	errF := []FShape{{ErrFetch: true}}
@@ -506,6 +507,9 @@ func main() {
 	R := fetchShapes(names, false, red4, 2)
 	T3 := fetchShapes(names, false, red3, 2)
 	T3z := fetchShapes(names, true, red3, 2)
+	Rz := fetchShapes(names, true, red4, 2)
+	T2 := fetchShapes(names, false, red2, 2)
+	T2z := fetchShapes(names, true, red2, 2)
 	stages = append(stages,
 		stage{"one-fetch/full", [][]FShape{F}},
 		stage{"one-fetch/full/zero-id", [][]FShape{Fz}},
@@ -519,12 +523,13 @@ func main() {
 			stage{"two-fetches/full/ids-set", [][]FShape{F, F}},
 			stage{"two-fetches/full/id-zero-in-first", [][]FShape{Fz, F}},
 			stage{"two-fetches/full/id-zero-in-second", [][]FShape{F, Fz}},
-			stage{"two-fetches/full/id-zero-in-both", [][]FShape{Fz, Fz}},
-			stage{"errfetch+two-fetches/full", [][]FShape{errF, F, F}},
-			stage{"two-fetches/full+errfetch", [][]FShape{F, F, errF}},
+			stage{"two-fetches/reduced4/id-zero-in-both", [][]FShape{Rz, Rz}},
+			stage{"errfetch+two-fetches/reduced4", [][]FShape{errF, R, R}},
+			stage{"two-fetches/reduced4+errfetch", [][]FShape{R, R, errF}},
 			stage{"two-fetches/errfetch-between/reduced4", [][]FShape{R, errF, R}},
 			stage{"three-fetches/reduced3", [][]FShape{T3, T3, T3}},
-			stage{"three-fetches/reduced3/id-only-in-last", [][]FShape{T3z, T3z, T3}},
+			stage{"three-fetches/reduced2/id-only-in-last", [][]FShape{T2z, T2z, T2}},
+			stage{"three-fetches/reduced2/id-only-in-first", [][]FShape{T2, T2z, T2z}},
 		)
 	} else {
 		Q := fetchShapes(names, false, red5, 2)
@@ -557,7 +562,7 @@ func main() {
 	}
 	r.Set("bound_completed", done)
 	r.Set("fetch_shapes_full", len(F))
-	r.Set("partition_states", map[string]any{"full": full, "reduced5": red5, "reduced4": red4, "reduced3": red3})
+	r.Set("partition_states", map[string]any{"full": full, "reduced5": red5, "reduced4": red4, "reduced3": red3, "reduced2": red2})
 	pprof.StopCPUProfile()
 	r.Finish()
 }
@@ -614,6 +619,7 @@ func runStage(r *ev.Run, st stage) int64 {
 				}
 				r.Evals(hi - lo)
 				if r.Violations() > 200 {
+					r.NotExhaustive("stopped after more than 200 violations")
 					break
 				}
 			}
